@@ -28,7 +28,11 @@ VARIABLES l,      \* next line to consume
           seen    \* Observe: inp -> first observation of that input
 vars == <<l, seen>>
 
-Obs(e) == [doc |-> e.doc, args |-> e.args, structs |-> e.structs, hash |-> e.hash]
+\* deco (the attributes the schema file carried) is part of the input's identity, route (how
+\* the generator was invoked) is not: lines of one inp made under different routes must carry
+\* one observation (Codegen!InvocationBlind); the verdict on the structs does not look at deco
+\* (Codegen!AttributeBlind: Verdict takes doc and args).
+Obs(e) == [doc |-> e.doc, args |-> e.args, deco |-> e.deco, structs |-> e.structs, hash |-> e.hash]
 
 Init == l = 1 /\ seen = NoObs
 Next == /\ l <= Len(Trace)
@@ -36,12 +40,14 @@ Next == /\ l <= Len(Trace)
         /\ seen' = ObsRecord(seen, Trace[l].inp, Obs(Trace[l]))
 Spec == Init /\ [][Next]_vars
 
-SameInput(e) == Observed(seen, e.inp) => seen[e.inp].doc = e.doc /\ seen[e.inp].args = e.args
+SameInput(e) == Observed(seen, e.inp) =>
+                    seen[e.inp].doc = e.doc /\ seen[e.inp].args = e.args /\ seen[e.inp].deco = e.deco
 
 Rels == {"fresh", "over_own_output", "over_longer_output", "over_shorter_output", "over_equal_output"}
 
 LineVerdict(e) ==
     IF ~WF(e.doc) \/ ~SameInput(e) \/ e.args.form \notin {"no_ignore", "with_ignore"} \/ e.rel \notin Rels
+       \/ e.deco \notin Decos \/ e.route \notin Routes
     THEN "bad_trace"
     ELSE LET sv == Verdict(e.doc, e.args, e.structs)
          IN IF sv # "ok" THEN sv
@@ -56,7 +62,8 @@ Details(e) ==
              b == e.structs
              d == (IF StructOrderDiffers(a, b) THEN {"struct_order"} ELSE {})
                   \cup (IF FieldOrderDiffers(a, b) THEN {"field_order"} ELSE {})
-         IN IF e.rel # "fresh" THEN {e.rel}      \* differs from the fresh directory's: by what it found
+         IN IF e.route # "binary" THEN {"invocation"}   \* differs from the pre-built binary's run
+            ELSE IF e.rel # "fresh" THEN {e.rel}  \* differs from the fresh directory's: by what it found
             ELSE IF d = {} THEN {"content"} ELSE d
     ELSE IF c = "wrong_field_type" THEN {WrongTypeOf(e.doc, e.args, e.structs)}
     ELSE {}
@@ -67,7 +74,7 @@ Diagnose ==
     l <= Len(Trace) =>
         LET e == Trace[l] IN
         Emit([n |-> l, inp |-> e.inp, run |-> e.run, verdict |-> LineVerdict(e), details |-> Details(e),
-              shape |-> Shape(e.doc), form |-> e.args.form, rel |-> e.rel,
+              shape |-> Shape(e.doc), form |-> e.args.form, rel |-> e.rel, route |-> e.route,
               carried |-> IF LineVerdict(e) = "wrong_field_type"
                           THEN WrongTypeCarriesId(e.doc, e.args, e.structs) ELSE FALSE,
               drift |-> IF LineVerdict(e) = "bad_trace" THEN FALSE ELSE NameDrift(e.doc, e.structs),
